@@ -6,7 +6,8 @@
    refutation witnesses and examples use [go_match], the transcription of Go's
    algorithm that the correspondence run plugs into the model. *)
 From Coq Require Import List NArith Bool.
-From FS Require Import Sx Model.Path Model.Stat Model.Tree Model.FollowLinks Proofs.FollowLinksP.
+From FS Require Import Sx Model.Path Model.Stat Model.Tree Model.FollowLinks Proofs.FollowLinksP
+     Proofs.FollowLinksClosedP.
 Import ListNotations.
 Open Scope N_scope.
 
@@ -36,8 +37,26 @@ Theorem result_covers_resolved :
     (forall e, In e l -> In e (resolved st)).
 Proof. exact FollowLinksP.result_covers_resolved_proof. Qed.
 
-(* ---- closure, part 2: NOT PROVED (see props/C18.json unproved_statements); it is the
-        specification the correspondence run evaluates on every implementation result:
+(* ---- closure, part 2, for pattern-free inputs (no component of a request or of a link
+        target contains * ? [ unescaped): every symlink the independent resolver
+        chroot_resolve traverses for every request, and the entry it reaches, is in or
+        below an element of the result; the result is nil when the root is reached.
+        All trees: relative / absolute links, ".." beyond the root, chains, cycles, links
+        in intermediate components, dangling links.  [fuel] is arbitrary: the statement
+        is about any run that did not run out of fuel (follow_terminates gives one). ---- *)
+Theorem result_closed_partial :
+  forall gmatch view reqs (fuel : nat) (isnil : bool) (res : list bytes),
+    wf_view view = true ->
+    follow_links_opt gmatch view fuel reqs = Ok (if isnil then None else Some res) ->
+    no_revisit gmatch view fuel reqs = true ->
+    lexical_safe view reqs = true ->
+    literal_only view reqs = true ->
+    closed_b gmatch view isnil res reqs = true.
+Proof. exact FollowLinksClosedP.result_closed_partial_proof. Qed.
+
+(* ---- the FULL statement (wildcards allowed: in the last component of requests) is NOT
+        PROVED (see props/C18.json unproved_statements); it is the specification the
+        correspondence run evaluates on every implementation result:
 
    result_closed :
      forall gmatch view reqs isnil res,
@@ -139,9 +158,25 @@ Example root_and_wildcards :
   dedupe_paths (sort_bytes [[97;47;122]; [97;33]; [46]; [97]]) = None.
 Proof. vm_compute. repeat split; reflexivity. Qed.
 
+(* the hypotheses of result_closed_partial are jointly satisfiable on non-trivial cases
+   (a chain of links through a directory; three cycles; a link to the root = nil result) *)
+Definition partial_hyps (view : list node) (reqs : list bytes) (fuel : nat) (isnil : bool) (res : list bytes) : Prop :=
+  wf_view view = true /\
+  follow_links_opt go_match view fuel reqs = Ok (if isnil then None else Some res) /\
+  no_revisit go_match view fuel reqs = true /\ lexical_safe view reqs = true /\ literal_only view reqs = true.
+Example closed_partial_instances :
+  partial_hyps v_chain [[108;50]; [98;97;114]] (fuel_bound v_chain [[108;50]; [98;97;114]]) false
+    [[98;97;114]; [100;105;114;47;102;111;111]; [100;105;114;47;108;49]; [108;50]] /\
+  partial_hyps v_loop [[108;49]; [108;51]] (fuel_bound v_loop [[108;49]; [108;51]]) false [[108;49]; [108;50]; [108;51]] /\
+  partial_hyps v_abs [[100;105;114;47;108;49]] (fuel_bound v_abs [[100;105;114;47;108;49]]) false
+    [[98;97;122]; [100;105;114;47;108;49]; [102;111;111;47;98;97;114]] /\
+  partial_hyps [L [108] [47]; F [120]] [[108]] 5 true [].
+Proof. vm_compute. repeat split; reflexivity. Qed.
+
 Print Assumptions follow_terminates.
 Print Assumptions result_sorted_minimal.
 Print Assumptions result_covers_resolved.
+Print Assumptions result_closed_partial.
 Print Assumptions result_closed_refuted.
 Print Assumptions result_closed_lexical_refuted.
 Print Assumptions result_closed_wildcard_refuted.
